@@ -614,13 +614,30 @@ def file_enter(it, fr, cm):
         return cm
     if isinstance(cm, Sym):
         raise PyExc(TypeError(f"'{pytype_of(cm).__name__}' object does not support the context manager protocol"))
-    raise Unsupported('with-statement on ' + type(cm).__name__)
+    if hasattr(type(cm), '__enter__') and hasattr(type(cm), '__exit__'):
+        mod = (type(cm).__module__ or '').split('.')[0]
+        from .interp import REAL_IO_MODULES
+        if mod in REAL_IO_MODULES:
+            raise Unsupported('with-statement on ' + type(cm).__name__ + ' (real I/O is not performed)')
+        try:
+            return cm.__enter__()           # an ordinary concrete context manager (contextlib.suppress, locks, ...)
+        except Exception as e:
+            raise PyExc(e)
+    raise PyExc(TypeError(f"'{type(cm).__name__}' object does not support the context manager protocol"))
 
 
 def file_exit(it, fr, cm, pe):
     cm = fr.split(cm)
     if isinstance(cm, Opaque) and cm.what == 'file':
         file_method(it, fr, cm, 'close', [], {})
+        return False
+    if not isinstance(cm, Sym) and hasattr(type(cm), '__exit__'):
+        try:
+            if pe is None:
+                return bool(cm.__exit__(None, None, None))
+            return bool(cm.__exit__(type(pe.exc), pe.exc, None))
+        except Exception as e:
+            raise PyExc(e)
     return False
 
 
